@@ -283,8 +283,10 @@ class C04(Check):
     def jobs(self, seed, tier):
         cases = [(d, "") for d in docs(seed, tier, quick=1500, thorough=60000, bad=0.15)]
         hcases = [(d, "") for d in hostile(seed, size(tier, 400, 6000))]
+        tcases = [(d, "") for d in gen.tab_nul_templates()]
         return [Job("documents", cases, corr=two_sided("full", "full", proj_status, "termination status"), judge_mode="judge:C04"),
-                Job("hostile", hcases, corr=two_sided("full", "full", proj_status, "termination status"), judge_mode="judge:C04")]
+                Job("hostile", hcases, corr=two_sided("full", "full", proj_status, "termination status"), judge_mode="judge:C04"),
+                Job("tab / NUL templates in containers (exhaustive product)", tcases, corr=two_sided("full", "full", proj_status, "termination status"), judge_mode="judge:C04")]
 
 
 reg(C04("C04"))
@@ -518,14 +520,21 @@ def order_docs(seed, n):
                 parts.append("\n")
         parts.insert(rng.randrange(len(parts) + 1), "[%s] [%s][]\n\n" % (rng.choice(labs), rng.choice(labs)))
         out.append(("".join(parts).encode(), ""))
+        # two competing definitions inside ONE root block, the earlier one nested deeper or shallower than the later one
+        a, b = rng.choice(labs), rng.choice(labs)
+        d1, d2 = "[%s]: /first 'one'" % a, "[%s]: /second 'two'" % (a.upper() if rng.random() < 0.5 else a)
+        shape = rng.choice(["> - %s\n>\n> %s\n", "> > %s\n>\n> %s\n", "- - %s\n\n  %s\n", "> %s\n>\n> - %s\n", "- %s\n\n  > %s\n", "1. - > %s\n\n   %s\n", "> %s\n> %s\n"])
+        out.append((((shape % (d1, d2)) + "\n[%s] [%s]\n" % (a, b)).encode(), ""))
     return out
 
 
 class C12(Check):
     rule = "label pairs over atoms with multi-character folds, final sigma, Kelvin sign, dotted I, no-break and em spaces, tabs/line endings, escaped brackets, in four placements (expected match computed by an independent normaliser: whitespace collapse + str.casefold); competing definitions in random orders and containers; the general document stream for the closure clause"
     obligations = [("main", "Clos12full", "C12_closure"), ("main", "Refs12", "extract_is_fold"), ("main", "Refs12", "first_wins_first"), ("main", "Refs12", "first_wins_stable"),
-                   ("main", "Clos12", "parseInlines_closed")]
-    assumptions = ["partial: proved: the closure clause for every input and every matcher (C12_closure), Extract = first-wins fold in source order (extract_is_fold, first_wins_*); label normalisation (case folding through the generated x/text table, whitespace collapse) is tied by the correspondence and judged against Python's str.casefold on generated labels"]
+                   ("main", "Clos12", "parseInlines_closed"),
+                   ("main", "LabelNorm", "label_norm_single"), ("main", "LabelNorm", "collapse_idempotent"), ("main", "LabelNorm", "trim_collapse_idempotent"),
+                   ("main", "LabelNormAdj", "label_norm_adjacent")]
+    assumptions = ["partial: proved: the closure clause for every input and every matcher (C12_closure), Extract = first-wins fold in source order (extract_is_fold, first_wins_*); label normalisation = the CommonMark definition (fold . trim . collapse) for labels lying in one span or a chain of adjacent spans without NUL (label_norm_single, label_norm_adjacent), whitespace part idempotent; labels crossing stripped container prefixes, the case-folding table itself (generated from x/text) and end-to-end resolution are tied by the correspondence and judged against Python's str.casefold on generated labels"]
 
     def jobs(self, seed, tier):
         lab = label_docs(seed, size(tier, 2500, 100000))
@@ -548,8 +557,11 @@ def nocr_docs(seed, tier, quick, thorough):
 class C14(Check):
     rule = DOC_RULE + "; documents without CR, each also with LF->CRLF, LF->CR and an appended final newline; every block kind left open at end of input"
     obligations = [("stream", "C14b", "skip_blank_lines"), ("stream", "C14b", "nb_shift"), ("main", "Rec15", "parseSetext_correct"), ("recog", "TB", "parseThematicBreak_correct"),
-                   ("recog", "ATXProof", "parseATXHeading_correct")]
-    assumptions = ["partial: the padding clause is proved for any block machine (nb_shift, with the side condition that a CR-terminated prefix is not followed by LF); the recognizers are proved insensitive to the line-ending style through their equality with declarative definitions; the whole-parser simulation for the CRLF/CR and final-newline clauses is not proved: correspondence on the variants plus the oracle"]
+                   ("recog", "ATXProof", "parseATXHeading_correct"),
+                   ("main", "EolInv", "recognizers_eol_invariant"), ("main", "EolInv", "recognizers_eolRun_invariant"),
+                   ("main", "BlankPrefix", "parseBlocks_blank_prefix_partial"), ("main", "BlankPrefix", "skipLoop_blank_prefix_partial"),
+                   ("main", "BlankPrefix", "parseBlocks_blank_prefix_of_total")]
+    assumptions = ["partial: the padding clause is proved on the concrete block machine (parseBlocks_blank_prefix_partial: parseBlocks (B ++ s) = shifted parseBlocks s for blank-line prefixes B, under the side condition that a CR ending B does not fuse with an LF starting s and that the run on s does not end in a fuel code; parseBlocks_blank_prefix_of_total removes the fuel condition given totality) and for any block machine (nb_shift); all five recognizers are proved independent of the line-ending style and of its presence (recognizers_eol_invariant, any run of CR/LF bytes); the whole-parser simulation for the CRLF/CR and final-newline clauses is not proved: correspondence on the variants plus the oracle"]
 
     def jobs(self, seed, tier):
         base = nocr_docs(seed, tier, 1200, 50000)
@@ -626,8 +638,15 @@ def schedules(seed, ds):
     rng = random.Random(seed ^ 0xc08)
     out = []
     for d in ds:
+        r = rng.random()
+        if r < 0.15 and b"\r" not in d:
+            d = d.replace(b"\n", b"\r")
+        elif r < 0.3 and b"\r" not in d:
+            d = d.replace(b"\n", b"\r\n")
         n = len(d)
         kind = rng.randrange(6)
+        if b"\r" in d and rng.random() < 0.5:
+            kind = rng.choice([0, 4, 6])
         if kind == 0:
             caps = "1." * min(n + 2, 300)
         elif kind == 1:
@@ -644,6 +663,10 @@ def schedules(seed, ds):
                     cuts.append(i + 1 - last)
                     last = i + 1
             caps = ".".join(str(c) for c in cuts[:200])
+        elif kind == 6:
+            # one read boundary at a random position right after a CR
+            pos = [i + 1 for i, b in enumerate(d) if b == 13]
+            caps = str(rng.choice(pos)) if pos else ""
         else:
             caps = ""
         p = "caps=" + caps.strip(".") + ";eager=" + str(rng.randrange(2))
@@ -715,7 +738,7 @@ def recog_lines(seed, tier):
     return withnl
 
 
-URI_ALPHA = [b"a", b"%", b"4", b"G", b"g", b" ", b"/", b"?", "é".encode(), b"\xff", b"[", b"\\", b"<", b"\"", b"&", b"#", b"~", b"^", b"\x7f", b"\x01", b"%41", b"%e9", b"%zz", "日".encode(), b"+", b"|"]
+URI_ALPHA = ["Ł".encode(), "ź".encode(), "б".encode(), "乡".encode(), b"a", b"%", b"4", b"G", b"g", b" ", b"/", b"?", "é".encode(), b"\xff", b"[", b"\\", b"<", b"\"", b"&", b"#", b"~", b"^", b"\x7f", b"\x01", b"%41", b"%e9", b"%zz", "日".encode(), b"+", b"|"]
 EMAIL_ALPHA = [b"a", b"Z", b"0", b"@", b".", b"-", b"_", b"+", b"!", b" ", "é".encode(), b"<", b"a" * 63, b"b" * 64, b"-a", b"a-", b"..", b"x.y"]
 
 
@@ -888,7 +911,7 @@ def race_run(seed, tier):
     rc, out = build.sh("go build -race -tags verif -o %s ./harness" % exe, cwd=godir, env=build.GOENV)
     if rc != 0:
         return 1, "race build failed: " + out
-    ds = gen.docs(seed, 600 if tier == "quick" else 6000)
+    ds = gen.docs(seed, 600 if tier == "quick" else 6000) + raw_docs(seed, 200 if tier == "quick" else 2000)
     n = "60" if tier == "quick" else "600"
     p = subprocess.run([exe, "race", str(seed), n], input=("\n".join(d.hex() for d in ds) + "\n").encode(), stdout=subprocess.PIPE, stderr=subprocess.STDOUT,
                        env=dict(os.environ, GORACE="halt_on_error=1"), timeout=3000)
